@@ -176,6 +176,8 @@ class Walker:
         if isinstance(v, GenObj):
             n, new = self.oid(v)
             return ("gen", n, v.fn.name, v.state)
+        if isinstance(v, LazyZip):
+            return ("lazyzip",) + tuple(self.visit(x, f"{path}.{i}", lambda x2: None) for i, x in enumerate(v.parts))
         if isinstance(v, EnvGen):
             return ("envgen", v.name, v.state)
         if isinstance(v, EnvGenMethod):
